@@ -11,5 +11,10 @@ CONSTANTS
   TrailSigs = {"HUP", "INT", "TERM"}
   MaxTrail = 1
   PanicAborts = FALSE
-INVARIANTS SEmit AtReturn ReverseOrder
+  RegSplits = {"each"}
+  RegBufs = {"fresh"}
+  RegAfters = {"keep"}
+  RegEmpties = {FALSE}
+  AddAliases = FALSE
+INVARIANTS Registered SEmit AtReturn ReverseOrder
 CHECK_DEADLOCK FALSE
